@@ -170,12 +170,13 @@ def showRow (r : List α) : String := ",".intercalate (r.map DrvScalar.render)
 def showMat (m : List (List α)) : String := ";".intercalate (m.map showRow)
 
 /-- `weightedParameterDerivative` of the kernels whose derivative code is modelled (leaves, scaled leaves) -/
-def paramGrad (ex : α → α) : Kern α → Mat α → Mat α → Mat α → Option (List α)
+def paramGrad (ex sq : α → α) : Kern α → Mat α → Mat α → Mat α → Option (List α)
+  | .wsum ws W ks, C, X1, X2 => some (wsumWeightGrad ex sq ws W ks C X1 X2)   -- sub-kernels not adaptive
   | .linear, _, _, _ => some []
   | .poly deg off, C, X1, X2 => some [polyParamDeriv deg off C X1 X2]
   | .gauss g, C, X1, X2 => some [gaussParamDeriv ex g C X1 X2]
   | .ard gs, C, X1, X2 => some (ardParamDeriv ex gs C X1 X2 (gs.map fun _ => 0))
-  | .scaled f k, C, X1, X2 => (paramGrad ex k C X1 X2).map (scaledGrad f)
+  | .scaled f k, C, X1, X2 => (paramGrad ex sq k C X1 X2).map (scaledGrad f)
   | _, _, _, _ => none
 
 /-- `weightedInputDerivative` of the same kernels -/
@@ -271,7 +272,7 @@ def step (s : St α) (line : String) : St α × String :=
           let C := chunk (d - c) (b - a) (cs.map valOf)
           let X1 := seg s.pts a b
           let X2 := seg s.pts c d
-          match paramGrad ex k C X1 X2 with
+          match paramGrad ex sq k C X1 X2 with
           | some g => (s, "g=" ++ showRow g)
           | none => (s, "unsupported")
         | "ideriv", .inl a :: .inl b :: .inl c :: .inl d :: cs =>
